@@ -207,6 +207,8 @@ type v01EnvCfg struct {
 	// AuthHook, if set, is called inside Authenticate before the verdict is returned
 	// (harness-owned yield point: lets a generated schedule hold the call open).
 	AuthHook func(token string)
+	// AuthDone, if set, is called after the verdict was logged, just before it is returned.
+	AuthDone func(token string)
 }
 
 type v01Env struct {
@@ -254,6 +256,9 @@ func (a *v01Auth) Authenticate(addr net.Addr, auth string, tx uint64) (bool, str
 	// The verdict is logged before it is returned: anything the server does
 	// "because of the accept" can only appear later in the log.
 	a.e.log.add("AuthRet", c, auth, ok, "")
+	if h := a.e.cfg.AuthDone; h != nil {
+		h(auth)
+	}
 	return ok, "id-c" + strconv.Itoa(c)
 }
 
@@ -419,10 +424,10 @@ func (l *v01EvLogger) UDPError(addr net.Addr, id string, sessionID uint32, err e
 
 type v01TL struct{}
 
-func (v01TL) LogTraffic(id string, tx, rx uint64) bool          { return true }
-func (v01TL) LogOnlineState(id string, online bool)             {}
-func (v01TL) TraceStream(stream HyStream, stats *StreamStats)   {}
-func (v01TL) UntraceStream(stream HyStream)                     {}
+func (v01TL) LogTraffic(id string, tx, rx uint64) bool        { return true }
+func (v01TL) LogOnlineState(id string, online bool)           {}
+func (v01TL) TraceStream(stream HyStream, stats *StreamStats) {}
+func (v01TL) UntraceStream(stream HyStream)                   {}
 
 func v01NewEnv(cfg v01EnvCfg) *v01Env {
 	e := &v01Env{cfg: cfg, log: &v01Log{}, byAddr: map[string]int{}, served: make(chan struct{})}
